@@ -2,8 +2,8 @@
    harness (Rust, real code) and this model decode it the same way and print a
    canonical text result. The case reader is the Buffer model itself. *)
 From GD Require Import Base.Prelude Model.Strings Model.Buffer Model.Unreal2Str Model.BufOps.
-From GD Require Import Model.Net Model.Valve Model.ValveShow Model.Master Model.Settings.
-From GD Require Import Spec.Rand Spec.ValveSpec Spec.ValveGen Spec.CaseEnc Spec.MasterSpec.
+From GD Require Import Model.Net Model.Valve Model.ValveShow Model.Master Model.Settings Model.Quake.
+From GD Require Import Spec.Rand Spec.ValveSpec Spec.ValveGen Spec.CaseEnc Spec.MasterSpec Spec.QuakeSpec.
 
 Definition rd_u8 : R N := read_uint true 1.
 Definition rd_u16 : R N := read_uint true 2.
@@ -289,6 +289,30 @@ Definition case_settings : R bytes :=
   | o => ret (show_outcome (fun _ => []) o ++ str ";")
   end.
 
+(* family 20: quake query (version 1, 2, 3) *)
+Definition case_quake : R bytes :=
+  let* port := rd_u16 in
+  let* v := rd_u8 in
+  let* ts := rd_tsettings in
+  let* n := rd_script in
+  match ts with
+  | Ok t => if 1000000 <? ts_retries_or_default t then ret model_abstains
+            else ret (show_query show_qresponse
+                        (client_query port (if v =? 1 then Q1 else if v =? 2 then Q2 else Q3) t n))
+  | o => ret (show_outcome (fun _ => []) o ++ str "|")
+  end.
+
+(* family 120: quake spec case: seed, version -> datagram | expected | tags *)
+Definition case_spec_quake : R bytes :=
+  let* seed := rd_u64 in
+  let* vb := rd_u8 in
+  let v := if vb =? 1 then Q1 else if vb =? 2 then Q2 else Q3 in
+  let st := fst (gen_qstate v seed) in
+  ret (show_hex (quake_reply v st) ++ str "|"
+       ++ show_option show_qresponse (quake_expected st) ++ str "|"
+       ++ str "np=" ++ show_N (lenN (qs_players st)) ++ str ";nv=" ++ show_N (lenN (qs_vars st))
+       ++ str ";nodup=" ++ show_bool (nodup_keys (qs_vars st))).
+
 Definition run_case_R : R bytes :=
   let* fam := rd_u8 in
   if fam =? 1 then case_bufops
@@ -301,9 +325,11 @@ Definition run_case_R : R bytes :=
   else if fam =? 10 then case_valve
   else if fam =? 16 then case_master
   else if fam =? 18 then case_settings
+  else if fam =? 20 then case_quake
   else if fam =? 110 then case_spec_valve
   else if fam =? 116 then case_spec_master
   else if fam =? 117 then case_spec_denote
+  else if fam =? 120 then case_spec_quake
   else fail InvalidInput.
 
 Definition run_case (c : bytes) : bytes :=
